@@ -484,8 +484,13 @@ func (c *FnVC) invEval(li *loopInfo, phis map[*ssa.Phi]string, heap HeapState) *
 				continue
 			}
 			if r.IsAddr {
-				// address-taken local: value lives in the heap
-				if r.Block().Dominates(li.header) || r.Block() == li.header {
+				// address-taken local: value lives in the heap. What must dominate the loop
+				// is the allocation of the local, not the place where its address is noted.
+				db := r.Block()
+				if vb := valueBlock(r.X); vb != nil {
+					db = vb
+				}
+				if db.Dominates(li.header) || db == li.header {
 					if best == nil {
 						best = r
 					}
